@@ -30,7 +30,13 @@ RULE = ("states = distinct abstract states (ordered (spelling, value) lists) of 
         "object by its shortest history and compared; transitions = operation applications that were checked against the model (replayed prefixes not "
         "counted); traces = complete histories replayed from a fresh object (tree mode from the three initial "
         "paragraphs, and prefix + 1..2 operations from every abstract state); non-trivial = histories whose last "
-        "operation changes the abstract state or takes an error path")
+        "operation changes the abstract state or takes an error path; other routes = the same operations reached through "
+        "the other mapping methods (update / setdefault / pop / popitem / clear / get / keys / values / items / dict() / == "
+        "/ get_as_string / str / bytes / dump(fd) / repr), keyword arguments of the re-ordering calls, further sort keys, "
+        "copies made by the constructor, re-reading from bytes / lines / a file object / iter_paragraphs: every one "
+        "applied in every abstract state (rebuilt by its shortest history, complete projection compared afterwards), "
+        "depth-2 trees from the initial paragraphs mixing them with the operations of the big trees, the other kinds of "
+        "initial paragraph, and paragraphs of the sub-classes; each such history counts as a transition and a trace")
 BUDGET = {"quick": 240, "thorough": 3000}
 
 TREE_DEPTH = {"quick": 2, "thorough": 3}
@@ -80,7 +86,8 @@ def extra_inits(keys, vals):
             ["wrapped-then-set", three]]
 
 
-SORT_KEYS = {"len": len, "const": lambda k: 0}
+SORT_KEYS = {"len": len, "const": lambda k: 0, "lower": lambda k: k.lower(),
+             "rlower": lambda k: [-ord(ch) for ch in k.lower()]}
 
 
 def operations(keys, vals):
@@ -97,6 +104,119 @@ def operations(keys, vals):
     return ops
 
 
+# ---- the same operations reached another way (the mapping methods a MutableMapping offers next to subscripting,
+# keyword arguments, further ways of copying / dumping / re-reading).  They are not part of the big trees: every one
+# is applied in every abstract state (rebuilt by its shortest history) and in depth-2 trees from the initial paragraphs
+# mixed with the operations above, and must do what the model does for the equivalent operation.
+CLASS_INITS = ["Packages", "Sources", "Dsc", "Changes", "BuildInfo", "Release", "PdiffIndex", "Removals"]
+CLASS_INITS_DEPTH2 = ["Packages"]
+
+
+def alt_operations(keys, vals):
+    a, a2, b, b2, c = keys
+    ops = [(t, k, v) for t in ("update-dict", "update-pairs", "update-kw", "setdefault") for k in keys for v in vals]
+    ops += [("update-two", k, vals[0], k2, vals[1]) for k, k2 in ((a, a2), (a2, a), (a, b2), (c, b), (b, c), (b2, b2))]
+    ops += [(t, k) for t in ("pop", "popd", "getd", "getdd", "gas", "in-keys", "first-kw", "last-kw") for k in keys]
+    ops += [("popitem",), ("clear",), ("keys",), ("values",), ("items",), ("dictconv",), ("str",), ("bytes",), ("dumpfd",),
+            ("dumpfdt",), ("repr",), ("eq",), ("eq-changed",), ("bool",)]
+    ops += [(t, k, r) for t in ("before-kw", "after-kw") for k in keys for r in keys]
+    ops += [("sort-none",), ("sortk", "lower"), ("sortk", "rlower")]
+    ops += [("ctor-copy",), ("class-copy",), ("dict-copy",), ("deep-copy",)]
+    ops += [("reparse-bytes",), ("reparse-lines",), ("reparse-fd",), ("reparse-iter",)]
+    return ops
+
+
+def tree_alt_operations(keys, vals):
+    """the alternative routes used as a step of the depth-2 trees: all but the keyword forms of order_before / after
+    for most key pairs (the positional forms are in the big trees; six pairs remain: different keys, the same key in
+    one and in two spellings, an absent reference)"""
+    a, a2, b, b2, c = keys
+    keep = ((a, b2), (b2, a), (c, a2), (a, a), (a, a2), (b, c))
+    return [op for op in alt_operations(keys, vals) if op[0] not in ("before-kw", "after-kw") or (op[1], op[2]) in keep]
+
+
+RESULT_OPS = ("get", "in", "len", "iter", "dump", "setdefault", "pop", "popd", "popitem", "getd", "getdd", "gas", "in-keys",
+              "keys", "values", "items", "dictconv", "str", "bytes", "dumpfd", "dumpfdt", "repr", "eq", "eq-changed", "bool")
+
+
+def model_apply_alt(m, op):
+    """the alternative routes in terms of the list model -> (model after, expected) or None if `op` is not one"""
+    t = op[0]
+    if t in ("update-dict", "update-pairs", "update-kw"):
+        m.set(op[1], op[2])
+    elif t == "update-two":
+        m.set(op[1], op[2])
+        m.set(op[3], op[4])
+    elif t == "setdefault":
+        if not m.contains(op[1]):
+            m.set(op[1], op[2])
+        return m, ("ok", m.get(op[1]))
+    elif t == "pop":
+        v = m.get(op[1])
+        m.delete(op[1])
+        return m, ("ok", v)
+    elif t == "popd":
+        if not m.contains(op[1]):
+            return m, ("ok", None)
+        v = m.get(op[1])
+        m.delete(op[1])
+        return m, ("ok", v)
+    elif t == "popitem":
+        # which pair goes is not part of the statement: op[1] is the name the implementation returned (None: it
+        # returned something that is not a pair); it must be one of the paragraph's pairs, exactly as stored
+        if m.length() == 0:
+            raise KeyError("popitem on an empty paragraph")
+        if op[1] is None or not m.contains(op[1]):
+            return m, ("ok", "one of %r" % (m.canon(),))
+        pair = (m.keys()[m.find(op[1])], m.get(op[1]))
+        m.delete(op[1])
+        return m, ("ok", pair)
+    elif t == "clear":
+        for k in m.keys():
+            m.delete(k)
+    elif t == "getd":
+        return m, ("ok", m.get(op[1]) if m.contains(op[1]) else None)
+    elif t == "getdd":
+        return m, ("ok", m.get(op[1]) if m.contains(op[1]) else "dflt")
+    elif t == "gas":
+        return m, ("ok", m.get(op[1]))
+    elif t == "in-keys":
+        return m, ("ok", m.contains(op[1]))
+    elif t == "keys":
+        return m, ("ok", m.keys())
+    elif t == "values":
+        return m, ("ok", [v for _s, v in m.canon()])
+    elif t in ("items", "dictconv"):
+        return m, ("ok", [(s_, v) for s_, v in m.canon()])
+    elif t in ("str", "bytes", "dumpfd", "dumpfdt"):
+        return m, ("ok", m.dump())
+    elif t == "repr":
+        return m, ("ok", "{%s}" % ", ".join("%r: %r" % (s_, v) for s_, v in m.canon()))
+    elif t == "eq":
+        return m, ("ok", True)
+    elif t == "eq-changed":
+        return m, ("ok", False)
+    elif t == "bool":
+        return m, ("ok", m.length() > 0)
+    elif t == "first-kw":
+        m.order_first(op[1])
+    elif t == "last-kw":
+        m.order_last(op[1])
+    elif t == "before-kw":
+        m.order_before(op[1], op[2])
+    elif t == "after-kw":
+        m.order_after(op[1], op[2])
+    elif t == "sort-none":
+        m.sort_fields()
+    elif t in ("ctor-copy", "class-copy", "dict-copy", "deep-copy"):
+        m = m.copy()
+    elif t in ("reparse-bytes", "reparse-lines", "reparse-fd", "reparse-iter"):
+        m = m.reparsed()
+    else:
+        return None
+    return m, ("ok", None)
+
+
 def bounds(tier):
     return {"keys": "5 (two case-collision pairs + one single key)", "values": 2, "operations": 93,
             "operation_kinds": ["set", "del", "get", "in", "len", "iter", "dump", "first", "last", "before (25 pairs)",
@@ -104,7 +224,21 @@ def bounds(tier):
             "initial_states": ["empty", "dict-initialised (2 keys)", "parsed from text (3 keys)"],
             "other_initial_states": "tree depth 1-2 from: " + ", ".join("%s %s" % (k, "/".join(n for n, _v in p)) for k, p in extra_inits(*alphabet(0))),
             "tree_depth": TREE_DEPTH[tier], "graph": "fixpoint of the abstract state space",
-            "graph_tree_depth": GRAPH_TREE_DEPTH, "graph_tree_observation": GRAPH_OBSERVE[tier]}
+            "graph_tree_depth": GRAPH_TREE_DEPTH, "graph_tree_observation": GRAPH_OBSERVE[tier],
+            "other_routes": {
+                "operations": len(alt_operations(*alphabet(0))),
+                "operation_kinds": sorted(set(op[0] + ("/" + op[1] if op[0] == "sortk" else "") for op in alt_operations(*alphabet(0)))),
+                "in_every_abstract_state": "each of them as one further step after the state's shortest history",
+                "trees_depth_2": ("route then operation from the three initial paragraphs; route then route from the parsed one"
+                                  if tier == "quick" else
+                                  "route then operation, operation then route, route then route from the three initial "
+                                  "paragraphs, the other initial paragraphs and the length-changing alphabet") +
+                                 " (%d routes: the keyword forms of order_before / order_after for six key pairs only)"
+                                 % len(tree_alt_operations(*alphabet(0))),
+                "other_initial_paragraphs": "each route as the first step from the other kinds of initial paragraph and from "
+                                            "the initial paragraphs over the length-changing alphabet",
+                "sub_classes": "a 3-field paragraph parsed by %s: every operation and every route as first step; depth-2 "
+                               "tree of operations for %s" % (CLASS_INITS, CLASS_INITS_DEPTH2 if tier == "quick" else CLASS_INITS)}}
 
 
 def assumptions():
@@ -112,6 +246,14 @@ def assumptions():
             "values are non-empty single-line strings without surrounding blanks (what a dump/parse cycle preserves)",
             "return values of assignments and re-ordering calls are not part of the statement",
             "copy() and dump/re-parse continue on the new object; the object left behind must keep the projection it had",
+            "other routes: update / setdefault / pop / get / keys / values / items / clear / == are the MutableMapping "
+            "counterparts of assignment, deletion and lookup and must agree with them; popitem() must return and remove "
+            "one pair of the paragraph as stored (which one is not stated: the model removes the one returned); d == e is "
+            "True for a paragraph built from the same pairs and False when a value differs or a field is added; repr() is "
+            "the dict-style text of the (name, value) pairs in order",
+            "copying = the copy() method, the copying constructors and copy.deepcopy(): the copy continues the history, "
+            "the original keeps the projection it had; left out: copy.copy() (a shallow copy shares the key set with the "
+            "original by Python's own rules)",
             "graph mode: two objects with equal complete projections have equal futures in the model; the depth-2 tree "
             "from the representative of every abstract state covers the first two steps of any implementation-only difference"]
 
@@ -122,6 +264,9 @@ def model_apply(m, op):
     """-> (model after, expected) ; expected = ('ok', result-or-None) | ('exc', frozenset of class names)"""
     t = op[0]
     try:
+        alt = model_apply_alt(m, op)
+        if alt is not None:
+            return alt
         if t == "set":
             m.set(op[1], op[2])
         elif t == "del":
@@ -204,6 +349,9 @@ def build(init):
     text = "".join("%s: %s\n" % (k, v) for k, v in pairs)
     if kind == "text":
         return Deb822(text)
+    if kind.startswith("class:"):
+        import debian.deb822
+        return getattr(debian.deb822, kind[6:])(text)
     if kind == "lines":
         return Deb822(text.splitlines())
     if kind == "bytes":
@@ -262,10 +410,116 @@ def real_apply(d, op):
         elif t == "reparse":
             d = Deb822(d.dump())
         else:
-            raise AssertionError(op)
+            d, res = real_apply_alt(d, op)
     except Exception as e:      # whatever the code under test raises is an observation
         return d, ("exc", type(e).__name__, str(e))
     return d, ("ok", res)
+
+
+def real_apply_alt(d, op):
+    """the alternative routes on the real object -> (object after, result)"""
+    import io
+    from debian.deb822 import Deb822
+    t = op[0]
+    res = None
+    if t == "update-dict":
+        d.update({op[1]: op[2]})
+    elif t == "update-pairs":
+        d.update([(op[1], op[2])])
+    elif t == "update-kw":
+        d.update(**{op[1]: op[2]})
+    elif t == "update-two":
+        d.update(iter([(op[1], op[2]), (op[3], op[4])]))
+    elif t == "setdefault":
+        res = d.setdefault(op[1], op[2])
+    elif t == "pop":
+        res = d.pop(op[1])
+    elif t == "popd":
+        res = d.pop(op[1], None)
+    elif t == "popitem":
+        res = d.popitem()
+    elif t == "clear":
+        d.clear()
+    elif t == "getd":
+        res = d.get(op[1])
+    elif t == "getdd":
+        res = d.get(op[1], "dflt")
+    elif t == "gas":
+        res = d.get_as_string(op[1])
+    elif t == "in-keys":
+        res = op[1] in d.keys()
+    elif t == "keys":
+        res = list(itertools.islice(iter(d.keys()), ITER_BOUND))
+    elif t == "values":
+        res = list(itertools.islice(iter(d.values()), ITER_BOUND))
+    elif t == "items":
+        res = list(itertools.islice(iter(d.items()), ITER_BOUND))
+    elif t == "dictconv":
+        res = list(dict(d).items())
+    elif t == "str":
+        res = str(d)
+    elif t == "bytes":
+        res = bytes(d).decode("utf-8")
+    elif t == "dumpfd":
+        fd = io.BytesIO()
+        d.dump(fd)
+        res = fd.getvalue().decode("utf-8")
+    elif t == "dumpfdt":
+        fd = io.StringIO()
+        d.dump(fd, text_mode=True)
+        res = fd.getvalue()
+    elif t == "repr":
+        res = repr(d)
+    elif t == "eq":
+        other = Deb822(dict(d.items()))
+        res = bool(d == other) and bool(other == d) and not (d != other)
+    elif t == "eq-changed":
+        # a paragraph that differs in one value, resp. has one more field, is not equal
+        ks = list(d)
+        other = Deb822(dict(d.items()))
+        if ks:
+            other[ks[-1]] = d[ks[-1]] + "x"
+        else:
+            other["Zz"] = "1"
+        res = bool(d == other) or bool(other == d)
+    elif t == "bool":
+        res = bool(d)
+    elif t == "first-kw":
+        d.order_first(field=op[1])
+    elif t == "last-kw":
+        d.order_last(field=op[1])
+    elif t == "before-kw":
+        d.order_before(field=op[1], reference_field=op[2])
+    elif t == "after-kw":
+        d.order_after(reference_field=op[2], field=op[1])
+    elif t == "sort-none":
+        d.sort_fields(key=None)
+    elif t == "ctor-copy":
+        d = Deb822(d)
+    elif t == "class-copy":
+        d = type(d)(d)
+    elif t == "dict-copy":
+        d = Deb822(dict(d))
+    elif t == "deep-copy":
+        import copy
+        d = copy.deepcopy(d)
+    elif t == "reparse-bytes":
+        d = Deb822(bytes(d))
+    elif t == "reparse-lines":
+        d = Deb822(str(d).splitlines())
+    elif t == "reparse-fd":
+        fd = io.BytesIO()
+        d.dump(fd)
+        fd.seek(0)
+        d = Deb822(fd)
+    elif t == "reparse-iter":
+        ps = list(itertools.islice(Deb822.iter_paragraphs(d.dump()), 3))
+        if len(ps) != (1 if len(d) else 0):
+            raise AssertionError("iter_paragraphs(dump()) gives %d paragraphs" % len(ps))
+        d = ps[0] if ps else Deb822()
+    else:
+        raise AssertionError(op)
+    return d, res
 
 
 def real_observe(d, keys):
@@ -300,7 +554,7 @@ def compare(op, expected, observed, mobs, robs, rerr):
     else:
         if observed[0] == "exc":
             return ("deb822/%s/exception" % name, "no exception", "%s: %s" % observed[1:])
-        if name in ("get", "in", "len", "iter", "dump") and observed[1] != expected[1]:
+        if name in RESULT_OPS and observed[1] != expected[1]:
             return ("deb822/%s/result" % name, expected[1], observed[1])
     if rerr is not None:
         return ("deb822/%s/%s%s" % (name, after_error, rerr[0]), rerr[1], rerr[2])
@@ -324,8 +578,8 @@ def execute(keys, init, prefix, hist, every, info=None):
     left = []          # objects left behind by copy() / dump+re-parse, with the projection they had then
     for op in prefix:
         d0, c0 = d, c
-        d, _ = real_apply(d, op)
-        c, _ = model_step(c, op)
+        d, observed = real_apply(d, op)
+        c, _ = model_step(c, resolve(op, observed))
         if d is not d0:
             left.append((op[0], d0, model_obs(c0, keys)))
     if not hist:
@@ -337,7 +591,7 @@ def execute(keys, init, prefix, hist, every, info=None):
         before = c
         d0 = d
         d, observed = real_apply(d, op)
-        c, expected = model_step(c, op)
+        c, expected = model_step(c, resolve(op, observed))
         if d is not d0:
             left.append((op[0], d0, model_obs(before, keys)))
         if i == n - 1:
@@ -362,6 +616,14 @@ def execute(keys, init, prefix, hist, every, info=None):
                                          ("changed" if c != before else "unchanged"))
         info["nontrivial"] = expected[0] == "exc" or c != before
     return []
+
+
+def resolve(op, observed):
+    """popitem: the model is told which name the implementation returned"""
+    if op[0] != "popitem":
+        return op
+    r = observed[1] if observed[0] == "ok" else None
+    return ("popitem", r[0] if isinstance(r, tuple) and len(r) == 2 and isinstance(r[0], str) else None)
 
 
 def _ops(l):
@@ -457,15 +719,131 @@ def units(tier, seed):
             for f in ([None] if level == 1 else range(nops2)):
                 out.append({"mode": "tree", "init": i, "prefix": [], "first": f, "level": level, "observe": "end",
                             "alt": True})
+    out += route_units(tier, keys, vals, len(states))
     return out
 
 
+ROUTE_STATE_CHUNK = 24
+ROUTE_FIRST_CHUNK = 32
+
+
+def route_units(tier, keys, vals, nstates):
+    """the alternative routes: (state) every one applied in every abstract state; (alt-op / op-alt / alt-alt) depth-2
+    trees from the initial paragraphs that mix them with the operations of the big trees; (other-inits) every one
+    applied to the other kinds of initial paragraph; (class) paragraphs of the sub-classes"""
+    nops, nalt = len(operations(keys, vals)), len(tree_alt_operations(keys, vals))
+    out = [{"mode": "routes", "shape": "state", "lo": lo, "hi": min(nstates, lo + ROUTE_STATE_CHUNK)}
+           for lo in range(0, nstates, ROUTE_STATE_CHUNK)]
+    for start in route_tree_starts(tier, keys, vals):
+        for shape in route_tree_shapes(tier, start):
+            nfirst = nops if shape == "op-alt" else nalt
+            out += [dict(start, mode="routes", shape=shape, lo=lo, hi=min(nfirst, lo + ROUTE_FIRST_CHUNK))
+                    for lo in range(0, nfirst, ROUTE_FIRST_CHUNK)]
+    out.append({"mode": "routes", "shape": "other-inits"})
+    out += [{"mode": "routes", "shape": "class", "cls": cname} for cname in CLASS_INITS]
+    return out
+
+
+def route_tree_shapes(tier, start):
+    """quick: route then operation from the three initial paragraphs, route then route from the parsed one;
+    thorough: also operation then route, all three shapes from every start"""
+    if tier != "quick":
+        return ("alt-op", "op-alt", "alt-alt")
+    return ("alt-op", "alt-alt") if start["init"] == 2 else ("alt-op",)
+
+
+def route_tree_starts(tier, keys, vals):
+    starts = [{"init": i} for i in range(3)]
+    if tier != "quick":
+        starts += [{"init": i, "xinit": True} for i in range(len(extra_inits(keys, vals)))]
+        starts += [{"init": i, "alt": True} for i in range(3)]
+    return starts
+
+
 def unit_cost(u, tier):
+    if u["mode"] == "routes":
+        return {"state": 60000, "other-inits": 10000, "class": 80000}.get(u["shape"], 20000)
     n = 93 ** u["level"] if u["first"] is None else 93 ** (u["level"] - 1)
     return n * (3 + len(u["prefix"]) + u["level"] + (2 if u["observe"] == "every" else 0))
 
 
+def run_routes(u, tier, seed):
+    part = core.Part()
+    keys, vals = alphabet2() if u.get("alt") else alphabet(seed)
+    ops, alts = operations(keys, vals), alt_operations(keys, vals)
+    applied = [0]
+
+    def run(init, prefix, hist):
+        info = {}
+        bad = execute(keys, init, prefix, hist, False, info)
+        part.transitions += 1
+        part.traces += 1
+        part.evaluations += 1
+        part.max_depth = max(part.max_depth, len(prefix) + len(hist))
+        applied[0] += len(prefix) + len(hist)
+        case = {"keys": keys, "init": init, "prefix": list(prefix), "observe": "end", "history": list(hist)}
+        for sig, exp, obs in bad:
+            part.violation(sig, case, exp, obs)
+        if bad:
+            part.outcomes["VIOLATION:" + bad[0][0]] += 1
+            return False
+        part.outcomes[("route/" if any(op in alts for op in hist[-1:]) else "") + info["outcome"]] += 1
+        part.nontrivial += bool(info["nontrivial"])
+        if len(part.samples) < 2 and hist[-1] == alts[-1]:
+            part.sample(case)
+        return True
+
+    def tree(init, firsts, seconds):
+        for f in firsts:
+            if execute(keys, init, [], [f], False):
+                continue        # a failing first step is a case of a depth-1 unit and is not extended
+            for g in seconds:
+                run(init, [], [f, g])
+
+    shape = u["shape"]
+    if shape == "state":
+        states, _depth = abstract_states(keys, vals)
+        ii = inits(keys, vals)
+        for _c, i, h in states[u["lo"]:u["hi"]]:
+            prefix = _ops(h)
+            if execute(keys, ii[i], prefix, [], False):
+                continue        # the state cannot be rebuilt: reported by the unit that owns its shortest history
+            for a in alts:
+                run(ii[i], prefix, [a])
+    elif shape in ("alt-op", "op-alt", "alt-alt"):
+        init = (extra_inits if u.get("xinit") else inits)(keys, vals)[u["init"]]
+        talts = tree_alt_operations(keys, vals)
+        firsts = (ops if shape == "op-alt" else talts)[u["lo"]:u["hi"]]
+        tree(init, firsts, ops if shape == "alt-op" else talts)
+    elif shape == "other-inits":
+        for init in extra_inits(keys, vals):
+            for a in alts:
+                run(init, [], [a])
+        k2, v2 = alphabet2()
+        keys, vals = k2, v2
+        ops, alts = operations(keys, vals), alt_operations(keys, vals)
+        for init in inits(keys, vals):
+            for a in alts:
+                run(init, [], [a])
+    else:
+        # a paragraph of a sub-class is a Deb822 paragraph: the fields of the alphabet mean nothing special to any of them
+        init = ["class:" + u["cls"], inits(keys, vals)[2][1]]
+        if not execute(keys, init, [], [], False):
+            for a in ops + alts:
+                run(init, [], [a])
+            if u["cls"] in CLASS_INITS_DEPTH2 or tier != "quick":
+                tree(init, ops, ops)
+        else:
+            for sig, exp, obs in execute(keys, init, [], [], False):
+                part.violation(sig, {"keys": keys, "init": init, "prefix": [], "observe": "end", "history": []}, exp, obs)
+    part.extra["operation applications on real objects, replayed prefixes included"] += applied[0]
+    part.extra["histories that use an alternative route or a sub-class paragraph"] += part.traces
+    return part
+
+
 def run_unit(u, tier, seed):
+    if u["mode"] == "routes":
+        return run_routes(u, tier, seed)
     part = core.Part()
     keys, vals = alphabet2() if u.get("alt") else alphabet(seed)
     ops = operations(keys, vals)
